@@ -56,11 +56,11 @@ func TestC39(t *testing.T) {
 	defer os.RemoveAll(dir)
 	h := &c39{m: m, dir: dir}
 
-	nA := m.N(208, 8320)
+	nA := m.N(208, 2080)
 	m.Cases("keygen2go", nA, h.keygenToGo)
-	nB := m.N(120, 4800)
+	nB := m.N(120, 1200)
 	m.Cases("go2keygen", nB, h.goToKeygen)
-	nC := m.N(3*len(c39Classes)*4, 3*len(c39Classes)*120)
+	nC := m.N(3*len(c39Classes)*4, 3*len(c39Classes)*40)
 	m.Cases("inconsistent", nC, h.inconsistent)
 
 	m.Gate("A_same_key", nA/4, "ssh-keygen-written keys (supported type and cipher) parsed and compared with the .pub key")
